@@ -78,6 +78,9 @@ pub struct Sched {
     /// gates may only be kinds in this list (others are immediately ready)
     pub gated_kinds: RefCell<Vec<ReqKind>>,
     max_steps: Cell<usize>,
+    /// the provider completes nothing any more (it asked the solver to cancel and tore its
+    /// connections down): outstanding requests stay outstanding for ever
+    pub frozen: Cell<bool>,
 }
 
 pub const DEADLOCK_MSG: &str = "HARNESS-DEADLOCK: root future pending, not woken, nothing outstanding";
@@ -106,6 +109,7 @@ impl Sched {
                 ReqKind::Sort,
             ]),
             max_steps: Cell::new(200_000),
+            frozen: Cell::new(false),
         })
     }
 
@@ -171,7 +175,7 @@ impl Sched {
     /// Called at a quiescent point; returns false if nothing is outstanding (deadlock).
     fn step(&self) -> bool {
         let n = self.outstanding().len();
-        if n == 0 {
+        if n == 0 || self.frozen.get() {
             return false;
         }
         self.branching.borrow_mut().push(n);
